@@ -140,6 +140,7 @@ class SetState(Contract):
     props = ("C19",)
     cases = {k: v for k, v in PAIRS.items() if v[0] not in ("NOT READY TO SWITCH ON", "FAULT REACTION ACTIVE")}
     max_paths = 400
+    frozen_time = True
 
     def setup(self, w, case):
         frm, tgt = case
@@ -172,6 +173,7 @@ class SetStateAuto(Contract):
     max_paths = 3000
     loop_cuts = {"BaseNode402._change_state": 3, "BaseNode402.state": 12}
     exits = ()
+    frozen_time = True          # the drive reacts at once; deadlines are not part of this contract
 
     def setup(self, w, case):
         frm, tgt = case
